@@ -410,8 +410,10 @@ class Check:
         exit_code = 0
         # known findings that still reproduce
         for e in self.known:
-            if e["class"] in self.known_hits:
-                lines.append(f"KNOWN-FINDING: property={self.prop} {e['id']} [{e['class']}] {e['text']}")
+            # every listed finding is printed; the ones whose class was met (or whose witness was replayed)
+            # in this run are marked as re-confirmed in the evidence
+            hit = e["class"] in self.known_hits
+            lines.append(f"KNOWN-FINDING: property={self.prop} {e['id']} [{e['class']}] {e['text']}" + ("" if hit else " (not exercised by this run's inputs)"))
         self.cov["known_findings_reconfirmed"] = sorted(self.known_hits.keys())
         nviol = 0
         if self.violations:
